@@ -1,4 +1,5 @@
 use crate::debugger::address::RelocatedAddress;
+use crate::debugger::code;
 use crate::debugger::debugee::tracee::StopType::Interrupt;
 use crate::debugger::debugee::tracee::TraceeStatus::{Running, Stopped};
 use crate::debugger::debugee::{Debugee, Location};
@@ -118,6 +119,42 @@ impl Tracee {
         let mut map = RegisterMap::current(self.pid)?;
         map.update(Register::Rip, value);
         map.persist(self.pid)
+    }
+
+    /// Returns true if SIGTRAP waits in the signal queue of this thread.
+    fn sigtrap_pending(&self) -> bool {
+        let Ok(status) = std::fs::read_to_string(format!("/proc/{}/status", self.pid)) else {
+            return false;
+        };
+        status
+            .lines()
+            .find_map(|line| line.strip_prefix("SigPnd:"))
+            .and_then(|mask| u64::from_str_radix(mask.trim(), 16).ok())
+            .is_some_and(|mask| mask & (1 << (Signal::SIGTRAP as u64 - 1)) != 0)
+    }
+
+    /// Consume a breakpoint trap that is raised but not reported yet.
+    ///
+    /// A group-stop (PTRACE_INTERRUPT) is reported before the pending signals, so an
+    /// interrupted tracee may stand right behind a breakpoint instruction with SIGTRAP in
+    /// its signal queue. Normally this trap is reported at the next resume, but if the tracee
+    /// is going to be detached then nobody will catch it and the signal kills the process.
+    /// Take the signal now and return the program counter to the breakpoint address.
+    ///
+    /// Must be called for a stopped tracee when breakpoints are already disabled.
+    pub fn discard_pending_trap(&self) -> Result<(), Error> {
+        if !self.is_stopped() || !self.sigtrap_pending() {
+            return Ok(());
+        }
+
+        sys::ptrace::cont(self.pid, None).map_err(Ptrace)?;
+        if let WaitStatus::Stopped(_, Signal::SIGTRAP) = self.wait_one()? {
+            let info = sys::ptrace::getsiginfo(self.pid).map_err(Ptrace)?;
+            if info.si_code == code::TRAP_BRKPT || info.si_code == code::SI_KERNEL {
+                self.set_pc(self.pc()?.as_u64() - 1)?;
+            }
+        }
+        Ok(())
     }
 
     /// Get current tracee location.
